@@ -38,7 +38,7 @@ CfgJson(c) == LET ls == SetToSeq(DOMAIN c.loggers) IN
    thr |-> [i \in 1..Len(TargetSeq) |-> Thr(c, TargetSeq[i])],
    att |-> [i \in 1..Len(TargetSeq) |-> Attach(c, EffName(c, TargetSeq[i]))]]
 \* one line per transition: the configuration installed and what must be observable afterwards
-EmitEdge == PrintT(<<"REPLAY", ToJson([op |-> IF up THEN "set_config" ELSE "init",
+EmitEdge == fresh' => PrintT(<<"REPLAY", ToJson([op |-> IF up THEN "set_config" ELSE "init", drift |-> IF fresh THEN -1 ELSE globalMax,
                                         from |-> IF up THEN [root |-> CfgJson(cur).root, loggers |-> CfgJson(cur).loggers] ELSE [root |-> [lvl |-> 0, apps |-> <<>>], loggers |-> <<>>], frommax |-> globalMax,
                                         cfg |-> CfgJson(cur'), globalMax |-> globalMax'])>>)
 MetaInit == Init /\ PrintT(<<"REPLAY", ToJson([meta |-> "targets", targets |-> [i \in 1..Len(TargetSeq) |-> Str(TargetSeq[i])]])>>)
